@@ -798,7 +798,9 @@ pub fn t_byte(rep: &mut Report, mode: Mode, depth: usize) {
 /// every single-byte substitution (all 256 values) at every offset.
 pub fn t_corpus(rep: &mut Report, mode: Mode, tier: Tier) {
     let vis = ByteVisitor { mode };
-    let dir = std::path::Path::new("/repo/tests/inputs");
+    let repo = std::env::var("VERIF_REPO").unwrap_or_else(|_| "/repo".into());
+    let dir_buf = std::path::PathBuf::from(repo).join("tests/inputs");
+    let dir = dir_buf.as_path();
     let mut files: Vec<(String, Vec<u8>)> = Vec::new();
     if let Ok(rd) = std::fs::read_dir(dir) {
         for e in rd.flatten() {
@@ -811,7 +813,7 @@ pub fn t_corpus(rep: &mut Report, mode: Mode, tier: Tier) {
     }
     files.sort();
     if files.is_empty() {
-        rep.note("T-corpus: /repo/tests/inputs not readable; family skipped");
+        rep.note("T-corpus: tests/inputs of the repository not readable; family skipped");
         return;
     }
     let nfiles = files.len();
@@ -832,9 +834,29 @@ pub fn t_corpus(rep: &mut Report, mode: Mode, tier: Tier) {
             }
             m[i] = orig;
         }
+        // insertions: one byte inserted at every offset (whitespace in every gap of a realistic
+        // document must be accepted; anything else is judged by the reference)
+        let ins: &[u8] = if subst.len() > 64 { &subst } else { &[b' ', b'\n', b'\t', b'\r', b',', b':', b'"', b'0', b'x', b'\\', 0x00, 0x0B, 0x0C, 0xA0, 0xC2, 0xEF, 0xFF] };
+        let mut m: Vec<u8> = Vec::with_capacity(b.len() + 1);
+        for i in 0..=b.len() {
+            for &x in ins {
+                m.clear();
+                m.extend_from_slice(&b[..i]);
+                m.push(x);
+                m.extend_from_slice(&b[i..]);
+                vis.visit(&m, t);
+            }
+        }
+        // deletions: one byte removed at every offset
+        for i in 0..b.len() {
+            m.clear();
+            m.extend_from_slice(&b[..i]);
+            m.extend_from_slice(&b[i + 1..]);
+            vis.visit(&m, t);
+        }
         t.states += 1;
     });
-    rep.bounds["T-corpus"] = json!({"files": nfiles, "substitution_values_per_offset": subst.len(), "edits": "every truncation and every single-byte substitution at every offset"});
+    rep.bounds["T-corpus"] = json!({"files": nfiles, "substitution_values_per_offset": subst.len(), "edits": "every truncation, every single-byte substitution, every single-byte insertion (17 values quick / 256 thorough) and every single-byte deletion at every offset"});
     rep.absorb(t);
 }
 
